@@ -647,6 +647,20 @@ func (node *TopNode) resolveSplit(binding *syntax.SplitExp, t syntax.Type,
 					}
 				}
 			}
+			// Every collection the call is mapped over must have as many
+			// elements as the one which determined the forks, or some of
+			// them would silently be left out.
+			if part.Split.Call == binding.Call && part.Range != nil {
+				if want := part.Range.Length(); want >= 0 {
+					if n, ok := collectionLength(result); ok && n != want {
+						return ready, nil, &elementError{
+							element: fmt.Sprintf(
+								"%s has %d elements, but the call is mapped over %d",
+								binding.Value.GoString(), n, want),
+						}
+					}
+				}
+			}
 			e, err := getElement(result, part.Id)
 			if err != nil {
 				err = &elementError{
@@ -692,6 +706,41 @@ func (node *TopNode) resolveSplit(binding *syntax.SplitExp, t syntax.Type,
 		return ready, &b, nil
 	}
 	return ready, binding, nil
+}
+
+// collectionLength returns the number of elements of an array or map value,
+// if it is one.
+func collectionLength(value json.Marshaler) (int, bool) {
+	switch value := value.(type) {
+	case marshallerArray:
+		return len(value), true
+	case MarshalerMap:
+		return len(value), true
+	case LazyArgumentMap:
+		return len(value), true
+	case *syntax.ArrayExp:
+		return len(value.Value), true
+	case *syntax.MapExp:
+		return len(value.Value), true
+	case json.RawMessage:
+		trimmed := bytes.TrimSpace(value)
+		if len(trimmed) == 0 {
+			return 0, false
+		}
+		switch trimmed[0] {
+		case '[':
+			var arr []json.RawMessage
+			if json.Unmarshal(trimmed, &arr) == nil {
+				return len(arr), true
+			}
+		case '{':
+			var m map[string]json.RawMessage
+			if json.Unmarshal(trimmed, &m) == nil {
+				return len(m), true
+			}
+		}
+	}
+	return 0, false
 }
 
 func getElement(result json.Marshaler,
